@@ -2,7 +2,7 @@
 From stdpp Require Import gmap list.
 From Coq Require Import ZArith Lia.
 From Verif Require Import S1.Model C07.Spec C07.Proofs C03.Model C03.Spec
-     C03.ProofsS C03.ProofsF C03.Proofs C03.ProofsR C03.ProofsU C03.ProofsP C03.ProofsC C03.ProofsV.
+     C03.ProofsS C03.ProofsF C03.Proofs C03.ProofsR C03.ProofsU C03.ProofsP C03.ProofsC C03.ProofsV C03.ProofsB.
 Open Scope Z_scope.
 
 (* ===================== structural layer ===================== *)
@@ -473,3 +473,55 @@ Proof.
   unfold omits_required. split; intros (s & Hin & Hr); exists s; (split; [by apply Hs|done]).
 Qed.
 Print Assumptions C03_verify_filter_set_of_scripts.
+
+(* ===================== block fetch faults ===================== *)
+
+(* A dispute round whose block fetch fails is NO VERDICT, for all answer sets
+   ([env_noblk env]: the environment env with GetBlock failing at every
+   height).  (1) detectBadPeers without the block reports an error, unless it
+   names peers on the evidence of their own answers alone (no filter served,
+   or a filter that does not hash to the advertised filter hash) - then the
+   block is not asked for and the peers named are those of the round with the
+   block: nobody is ever named by OP_RETURN counts or by a majority of
+   filters.  (2) The detection loop of one mismatching index: everybody banned
+   without the block is banned with it, and a loop that ends without the block
+   ends in the same state with it.  (3) getUncheckpointedCFHeaders /
+   resolveConflict: without the block the call reports an error and writes /
+   returns nothing - unless it did not need the block, and then its bans and
+   its result are exactly those of the call with every block available: once
+   the block can be fetched the outcome is that of the fault-free round. *)
+Theorem C03_block_fetch_failure_is_no_verdict :
+  (forall hs idx filters hok fo,
+     detect_bad hs idx filters hok false fo = None \/
+     exists bad, detect_bad hs idx filters hok false fo = Some bad /\ bad <> [] /\
+       detect_bad hs idx filters hok true fo = Some bad /\
+       forall q, In q bad -> exists m, In (q, m) hs /\
+         match lookup q filters with
+         | None => True
+         | Some f => fo_hash fo f <> default 0 (zget (m_hashes m) idx)
+         end) /\
+  (forall env startH fuel hs i bans r bans',
+     settle_index fuel (env_noblk env) startH hs i bans = (r, bans') ->
+     (exists r2 bans2, settle_index fuel env startH hs i bans = (r2, bans2) /\
+                       forall q, In q bans' -> In q bans2) /\
+     (forall hs', r = Some hs' -> settle_index fuel env startH hs i bans = (Some hs', bans'))) /\
+  (forall v env raws bans r,
+     get_uncheckpointed v (env_noblk env) raws = (bans, r) ->
+     r = UErr \/ r = UNoop \/ get_uncheckpointed v env raws = (bans, r)) /\
+  (forall H hard v env raws hint cps bans res,
+     resolve_conflict H hard v (env_noblk env) raws hint cps = (bans, res) ->
+     res = None \/ resolve_conflict H hard v env raws hint cps = (bans, res)).
+Proof.
+  split; [|split; [|split]].
+  - intros hs idx filters hok fo.
+    destruct (detect_bad hs idx filters hok false fo) as [bad|] eqn:Ed; [right|by left].
+    destruct (detect_bad_noblk _ _ _ _ _ _ Ed) as (Hne & Hq & Ht). by exists bad.
+  - intros env startH fuel hs i bans r bans' Hs. split.
+    + exact (settle_index_noblk_bans env startH fuel hs i bans r bans' Hs).
+    + intros hs' ->. by apply settle_index_noblk.
+  - intros v env raws bans r Hg. destruct r as [| |m]; [by left|by right; left|right; right].
+    by apply get_uncheckpointed_noblk.
+  - intros H hard v env raws hint cps bans res Hr. destruct res as [l|]; [right|by left].
+    by apply resolve_conflict_noblk.
+Qed.
+Print Assumptions C03_block_fetch_failure_is_no_verdict.
